@@ -42,19 +42,23 @@ def rule_tv(ctx, rule="R1"):
         ctx.count_paths(pr, br)
         programs += 1
         prods |= set(m["prods"])
-        okp = len(pm) == 1 and len(pr) == 1 and pm[0].outcome == "return" and pr[0].outcome == "return"
-        if not okp:
-            ctx.ob(rule, "pair/" + m["name"], False, "expansion is not a straight-line builder chain (%d / %d paths): %s"
-                   % (len(pm), len(pr), m["macro"]), bm["span"], what="not-a-builder-chain")
+        pairs = tv.pair_paths(pm, pr)
+        if pairs is None:
+            ctx.ob(rule, "pair/" + m["name"], False, "macro expansion and builder chain do not take the same paths through the "
+                   "builder code (%d / %d paths): %s" % (len(pm), len(pr), m["macro"]), bm["span"], what="not-a-builder-chain")
             continue
-        sm, sr = tv.merged_shape(pm[0].ret), tv.merged_shape(pr[0].ret)
-        am, ar = tv.build_args(pm[0].ret), tv.build_args(pr[0].ret)
         diffs = {}
-        ok = sm == sr and len(am) == len(ar)
-        if ok:
-            for i, (x, y) in enumerate(zip(am, ar)):
-                if not tv.same(tv.timeline_record(x), tv.timeline_record(y), diffs, "timeline[%d]" % i):
-                    ok = False
+        ok = True
+        am = ar = []
+        sm = sr = None
+        for (xm, xr) in pairs:
+            sm, sr = tv.merged_shape(xm.ret), tv.merged_shape(xr.ret)
+            am, ar = tv.build_args(xm.ret), tv.build_args(xr.ret)
+            ok = ok and sm == sr and len(am) == len(ar)
+            if ok:
+                for i, (x, y) in enumerate(zip(am, ar)):
+                    if not tv.same(tv.timeline_record(x), tv.timeline_record(y), diffs, "timeline[%d]" % i):
+                        ok = False
         ulp_notes += len(diffs.get("ulp", []))
         detail = "macro: %s | documented reading: %s | differences: %s" % (m["macro"], m["ref"], diffs.get("diff", [])[:4] or
                                                                       "wrapping %s vs %s" % (sm, sr))
